@@ -173,18 +173,140 @@ def _worker(args):
     return res
 
 
-def run_pool(modname: str, shards: list, nproc: int = NPROC):
-    """Run all shards; yields results as they complete."""
+def _crash_result(shard, exitcode, dump):
+    """Result for a shard whose worker process died (signal / hard exit).  If the innermost Python frame of the fault handler's
+    dump is inside the library, the library crashed the interpreter while it was exercised with admissible input: a violation
+    (with a replay that re-runs the shard in a child process).  Otherwise the harness is at fault."""
+    import re
+
+    frames = re.findall(r'File "([^"]+)", line (\d+) in (\S+)', dump or "")
+    lib = os.path.join(REPO, "speckit") + os.sep
+    sig = f"signal {-exitcode}" if isinstance(exitcode, int) and exitcode < 0 else f"exit code {exitcode}"
+    base = {"evals": 1, "nontrivial": 0, "samples": [], "failures": [], "extra": {}, "wall": 0.0, "shard": shard}
+    if frames and frames[0][0].startswith(lib):
+        fn, ln, name = frames[0]
+        chain = " <- ".join(f"{os.path.basename(f)}:{l} {n}" for f, l, n in frames[:4])
+        base["failures"].append(fail(f"library-crash/{name}",
+                                     f"the interpreter died ({sig}) inside the library at {os.path.basename(fn)}:{ln} in {name} ({chain}) while shard "
+                                     f"{json.dumps(jsonable(shard))[:300]} was being checked",
+                                     {"_shard": jsonable(shard)}))
+    else:
+        base["evals"] = 0
+        base["harness_error"] = f"worker process died ({sig}) while running shard {json.dumps(jsonable(shard))[:300]}\n{(dump or '')[:2000]}"
+    return base
+
+
+def _worker_main(conn, modname, crashfile):
+    import faulthandler
+
+    cf = open(crashfile, "w")
+    faulthandler.enable(file=cf, all_threads=False)
+    while True:
+        try:
+            msg = conn.recv()
+        except EOFError:
+            break
+        if msg is None:
+            break
+        idx, shard = msg
+        cf.seek(0)
+        cf.truncate()
+        res = _worker((modname, shard))
+        try:
+            conn.send((idx, res))
+        except Exception:  # noqa: BLE001  (unpicklable payload: report instead of dying)
+            conn.send((idx, {"evals": 0, "nontrivial": 0, "failures": [], "samples": [], "extra": {}, "wall": res.get("wall", 0.0),
+                             "shard": shard, "harness_error": "result of the shard could not be sent to the driver:\n" + traceback.format_exc()}))
+    os._exit(0)
+
+
+def run_in_child(modname: str, shard):
+    """Run one shard in a forked child; returns the result dict (a crash result if the child died)."""
+    for res in run_pool(modname, [shard], nproc=2, force_children=True):
+        return res
+
+
+def run_pool(modname: str, shards: list, nproc: int = NPROC, force_children: bool = False):
+    """Run all shards in forked worker processes; yields results as they complete.  A worker that dies (segmentation fault in
+    compiled code, os._exit, kill) is noticed: its shard is reported (see _crash_result) and a new worker takes over."""
     if not shards:
         return
-    if nproc <= 1 or len(shards) == 1:
+    if (nproc <= 1 or len(shards) == 1) and not force_children:
         for s in shards:
             yield _worker((modname, s))
         return
+    import tempfile
+    from multiprocessing import connection as mpc
+
     ctx = mp.get_context("fork")
-    with ctx.Pool(min(nproc, len(shards))) as pool:
-        for res in pool.imap_unordered(_worker, [(modname, s) for s in shards], chunksize=1):
-            yield res
+    tmpd = tempfile.mkdtemp(prefix="verif_pool_")
+    todo = list(enumerate(shards))[::-1]
+    workers = {}   # parent connection -> [process, index of the shard being run or None, crash file]
+    nspawn = 0
+
+    def spawn():
+        nonlocal nspawn
+        nspawn += 1
+        pc, cc = ctx.Pipe()
+        cfile = os.path.join(tmpd, f"w{nspawn}.txt")
+        pr = ctx.Process(target=_worker_main, args=(cc, modname, cfile), daemon=True)
+        pr.start()
+        cc.close()
+        workers[pc] = [pr, None, cfile]
+        return pc
+
+    def feed(pc):
+        if todo:
+            idx, sh = todo.pop()
+            workers[pc][1] = idx
+            pc.send((idx, sh))
+        else:
+            workers[pc][1] = None
+            try:
+                pc.send(None)
+            except Exception:  # noqa: BLE001
+                pass
+
+    try:
+        for _ in range(min(nproc, len(shards))):
+            feed(spawn())
+        outstanding = len(shards)
+        while outstanding:
+            busy = [pc for pc, w in workers.items() if w[1] is not None]
+            if not busy:
+                break
+            for pc in mpc.wait(busy):
+                pr, idx, cfile = workers[pc]
+                try:
+                    ridx, res = pc.recv()
+                except (EOFError, ConnectionResetError, OSError):
+                    pr.join(5)
+                    try:
+                        dump = open(cfile).read()
+                    except OSError:
+                        dump = ""
+                    del workers[pc]
+                    pc.close()
+                    outstanding -= 1
+                    yield _crash_result(shards[idx], pr.exitcode, dump)
+                    if todo:
+                        feed(spawn())
+                    continue
+                outstanding -= 1
+                feed(pc)
+                yield res
+    finally:
+        for pc, (pr, _, _) in list(workers.items()):
+            try:
+                pc.close()
+            except Exception:  # noqa: BLE001
+                pass
+            pr.join(2)
+            if pr.is_alive():
+                pr.terminate()
+        import shutil
+
+        shutil.rmtree(tmpd, ignore_errors=True)
 
 
 # --------------------------------------------------------------------------
@@ -392,8 +514,13 @@ def drive_replay(mod, path: str) -> int:
     with open(path) as f:
         rec = json.load(f)
     case = rec["case"]
-    r1 = mod.replay(case)
-    r2 = mod.replay(case)
+    if isinstance(case, dict) and "_shard" in case:
+        # the recorded failure is a crash of the interpreter inside the library: re-run the shard in child processes
+        r1 = run_in_child(mod.__name__, case["_shard"])["failures"]
+        r2 = run_in_child(mod.__name__, case["_shard"])["failures"]
+    else:
+        r1 = mod.replay(case)
+        r2 = mod.replay(case)
     k1 = sorted(x["key"] for x in r1)
     k2 = sorted(x["key"] for x in r2)
     if k1 != k2:
